@@ -1,6 +1,7 @@
 import Cppcms.C02.SafetyFcgi
 import Cppcms.C02.SafetyHttp
 import Cppcms.C02.Pool
+import Cppcms.C02.Actions
 /-!
 # C02 — property theorems
 
@@ -55,5 +56,125 @@ regenerated from `private/string_map.h`; the statement is false when `clear()` k
 head (`pool_overflows_when_last_kept`, finding D18). -/
 theorem pool_no_overflow (ops : List PoolOp) : (Pool.init.run Gen.poolClearKeepsHead ops).isSome = true :=
   Cppcms.C02.pool_no_overflow ops
+
+/-! ## the protocol independent layer, action by action
+
+`cgiRun` (C01/Cgi.lean) runs one request through `connection::on_headers_read`, `load_content`,
+`on_some_content_read`, `handle_http_error`, `handle_http_error_eof`, `set_error`, `context::on_request_ready`
+and `request::on_error` — the `CStmt` programs regenerated from `src/cgi_api.cpp`, `src/http_context.cpp`,
+`src/http_request.cpp` — and records the actions (application calls, filter notifications, error page,
+completion handler).  The theorems hold for every request head, every content reader that makes progress
+(a successful read of `want > 0` bytes delivers 1..`want` bytes; the three front-ends' readers do:
+`readers_progress`), every behaviour of the peer (read errors anywhere, the write of the error page failing
+or not) and both ways the header phase can end (`hdrErr`). -/
+
+/-- the only way the machine stops early is a multipart upload (property C12); in particular the layer's exit
+discipline holds semantically: no callback does anything after it has handed the request on (completion handler,
+next asynchronous operation, next callback of the chain), none ends without handing it on, two operations are
+never pending at once, and call depth and fuel of the model suffice. -/
+theorem cgi_layer_no_crash {σ : Type} (lim : Limits) (hl : LimitsOk lim) (rd : Nat → σ → Except Err (Bytes × σ))
+    (hrd : Progress rd) (wfail : Bool) (hdrErr : Option Err) (h : Head) (st : σ) :
+    (cgiRun lim rd wfail hdrErr h st).halt = none ∨ (cgiRun lim rd wfail hdrErr h st).halt = some .multipart := by
+  cases hh : (cgiRun lim rd wfail hdrErr h st).halt with
+  | none => exact Or.inl rfl
+  | some o =>
+    obtain ⟨_, hp⟩ := cgi_halt lim hl.buf rd hrd wfail hdrErr h st o hh
+    have hnc := requestPlan_done_no_crash lim hl h o hp
+    have := cgi_run_post lim hl.buf rd hrd wfail h st
+    rcases requestPlan_done_kinds hp with h1 | h1 | h1 | ⟨w, h1⟩
+    · -- an application outcome is never a halt
+      exfalso
+      subst_vars
+      cases this with
+      | app k pre vw hp' halt _ _ _ _ => rw [halt] at hh; cases hh
+      | status c p o' hp' halt _ _ _ => rw [halt] at hh; cases hh
+      | other o' hp' hno hns halt hst => rw [hp] at hp'; cases hp'; rw [hno] at h1; cases h1
+      | read n chunk pre fin hp' post => rw [post.halt] at hh; cases hh
+    · exfalso
+      subst_vars
+      cases this with
+      | app k pre vw hp' halt _ _ _ _ => rw [halt] at hh; cases hh
+      | status c p o' hp' halt _ _ _ => rw [halt] at hh; cases hh
+      | other o' hp' hno hns halt hst => rw [hp] at hp'; cases hp'; rw [hns] at h1; cases h1
+      | read n chunk pre fin hp' post => rw [post.halt] at hh; cases hh
+    · subst h1; exact Or.inr rfl
+    · subst h1; simp [isCrash] at hnc
+
+/-- every request's action list has one of three shapes (application / error page / dropped), hence `ActsOk` -/
+theorem request_actions_ok {σ : Type} (lim : Limits) (hl : LimitsOk lim) (rd : Nat → σ → Except Err (Bytes × σ))
+    (hrd : Progress rd) (wfail : Bool) (hdrErr : Option Err) (h : Head) (st : σ)
+    (hh : (cgiRun lim rd wfail hdrErr h st).halt = none) : ActsOk (cgiRun lim rd wfail hdrErr h st).acts :=
+  shape_ok (cgi_shape lim hl.buf rd hrd wfail hdrErr h st hh)
+
+/-- `app_at_most_once`: the application's `main()` runs on the ready request at most once — exactly when the
+completion handler was called without error, which happens exactly once per request, on every path — and the
+early `main()` of a content filter application runs at most once, first. -/
+theorem app_at_most_once {σ : Type} (lim : Limits) (hl : LimitsOk lim) (rd : Nat → σ → Except Err (Bytes × σ))
+    (hrd : Progress rd) (wfail : Bool) (hdrErr : Option Err) (h : Head) (st : σ)
+    (hh : (cgiRun lim rd wfail hdrErr h st).halt = none) :
+    let acts := (cgiRun lim rd wfail hdrErr h st).acts
+    acts.count .dispatch ≤ 1 ∧ acts.count .mainEarly ≤ 1 ∧ (acts.filter isDone).length = 1 ∧
+    (.dispatch ∈ acts ↔ .done false ∈ acts) ∧ (.done true ∈ acts → .dispatch ∉ acts) := by
+  have a := request_actions_ok lim hl rd hrd wfail hdrErr h st hh
+  exact ⟨a.dispatch_once, a.early_once, a.handler_once, a.dispatch_iff, fun x => (a.error_closed x).1⟩
+
+/-- `on_error_at_most_once`: the content filter's upload-error notification is delivered at most once, only to a
+filter whose application was called early, only for a request that failed, never together with
+`on_end_of_content` and never when the application gets the request. -/
+theorem on_error_at_most_once {σ : Type} (lim : Limits) (hl : LimitsOk lim) (rd : Nat → σ → Except Err (Bytes × σ))
+    (hrd : Progress rd) (wfail : Bool) (hdrErr : Option Err) (h : Head) (st : σ)
+    (hh : (cgiRun lim rd wfail hdrErr h st).halt = none) :
+    let acts := (cgiRun lim rd wfail hdrErr h st).acts
+    acts.count .onError ≤ 1 ∧ acts.count .endOfContent ≤ 1 ∧
+    (.onError ∈ acts → .mainEarly ∈ acts ∧ .done true ∈ acts ∧ .dispatch ∉ acts ∧ .endOfContent ∉ acts) ∧
+    (.endOfContent ∈ acts → .mainEarly ∈ acts ∧ .dispatch ∈ acts) := by
+  have a := request_actions_ok lim hl rd hrd wfail hdrErr h st hh
+  exact ⟨a.on_error_once, a.eoc_once, a.on_error_when, a.eoc_when⟩
+
+/-- `error_is_answered_or_closed`: a request that fails is either dropped without an answer or answered by exactly
+one error page — status 400..599, written with `eof` set, before the completion handler is told about the error —
+and in both cases the handler is told about the error (so the connection is not reused: `error_` is set before
+`h`, see `connection_closes_after_error_*`), and the application never sees the request. -/
+theorem error_is_answered_or_closed {σ : Type} (lim : Limits) (hl : LimitsOk lim)
+    (rd : Nat → σ → Except Err (Bytes × σ)) (hrd : Progress rd) (wfail : Bool) (hdrErr : Option Err) (h : Head) (st : σ)
+    (hh : (cgiRun lim rd wfail hdrErr h st).halt = none) :
+    let acts := (cgiRun lim rd wfail hdrErr h st).acts
+    (.done true ∈ acts → .dispatch ∉ acts ∧ (acts.filter isWrite).length ≤ 1) ∧
+    (∀ c e, .write c e ∈ acts → 400 ≤ c ∧ c ≤ 599 ∧ e = true ∧ .done true ∈ acts ∧ .dispatch ∉ acts) := by
+  have a := request_actions_ok lim hl rd hrd wfail hdrErr h st hh
+  exact ⟨a.error_closed, a.write_is_error⟩
+
+/-- the `Outcome` the front-end models work with (`runRequest`) is what the actions amount to: `.app` iff the
+application was dispatched (on `fin body`), `.status c pre onError` iff the page with status `c` was written, with
+`pre`/`onError` telling whether the early `main()` / the filter's `on_error` ran, `.aborted` iff nothing was
+written; the content reader is left in the same state. -/
+theorem actions_refine_outcome {σ : Type} (lim : Limits) (hl : LimitsOk lim) (rd : Nat → σ → Except Err (Bytes × σ))
+    (hrd : Progress rd) (wfail : Bool) (h : Head) (st : σ) :
+    (cgiRun lim rd wfail none h st).summary = (runRequest lim rd h st).1 ∧
+    (cgiRun lim rd wfail none h st).st = (runRequest lim rd h st).2 :=
+  cgi_refines lim hl.buf rd hrd wfail h st
+
+/-- the counters the correspondence compares with the real application's (early `main()`, `main()` on the ready
+request, filter `on_error`, filter `on_end_of_content`) and that the check reads off the model's `Outcome`
+(`countersOf`) are the numbers of the corresponding actions of the machine -/
+theorem counters_are_actions {σ : Type} (lim : Limits) (hl : LimitsOk lim) (rd : Nat → σ → Except Err (Bytes × σ))
+    (hrd : Progress rd) (wfail : Bool) (h : Head) (st : σ) (hh : (cgiRun lim rd wfail none h st).halt = none) :
+    let acts := (cgiRun lim rd wfail none h st).acts
+    (acts.count .mainEarly, acts.count .dispatch, acts.count .onError, acts.count .endOfContent) =
+      countersOf (runRequest lim rd h st).1 :=
+  cgi_counters lim hl.buf rd hrd wfail h st hh
+
+/-- the content readers of the three front-ends make progress (SCGI: the socket; FastCGI: STDIN records over any
+record reader; HTTP: read-ahead buffer, then the socket) -/
+theorem readers_progress : Progress sockRead ∧ (∀ {σ : Type} (R : RecReader σ), Progress (fcgiReadSome R)) ∧
+    Progress httpReadSome :=
+  ⟨progress_scgi, fun R => progress_fcgi R, progress_http⟩
+
+/-- non-vacuity of the hypotheses: the default limits, the socket reader, a run that does not halt -/
+example : LimitsOk {} ∧ Progress sockRead ∧
+    ∀ (h : Head) (st : Segs), (cgiRun {} sockRead false (some .eof) h st).halt = none ∧
+      (cgiRun {} sockRead false (some .eof) h st).acts = [.done true] :=
+  ⟨⟨by decide, by decide⟩, progress_scgi, fun h st => ⟨(cgi_run_hdr_err {} sockRead false .eof h st).1,
+    (cgi_run_hdr_err {} sockRead false .eof h st).2.1⟩⟩
 
 end Cppcms.C02.Props
